@@ -217,8 +217,30 @@ class StoreProfile(Profile):
 # ---------------------------------------------------------------------------------------------
 # search family (DESIGN 4)
 
-def gen_search(rng, m, vocab, base, simple=False, allow_last=False, allow_filter=True, allow_dstar=True):
-    """A search derived from a valid Sid string. Returns (search, features)."""
+def near_miss(rng, m, ents):
+    """A Sid string that does not exist but whose value at one free-form position is an existing value cut at
+    the filename separator ('x_y' -> 'x'): file-name globbing must not confuse the two. Returns (base, index)."""
+    cands = []
+    for e in ents:
+        tn = m.natural_type(e)
+        if not tn:
+            continue
+        for i, seg in enumerate(e.split("/")):
+            if "_" in seg.strip("_") and m.vocab(tn, m.by_name[tn].keys[i])[0] == "free":
+                cands.append((e, i))
+    if not cands:
+        return None, None
+    e, i = rng.choice(sorted(cands))
+    segs = e.split("/")
+    segs[i] = segs[i].rsplit("_", 1)[0]
+    base = "/".join(segs)
+    if m.natural_type(base) != m.natural_type(e):
+        return None, None
+    return base, i
+
+
+def gen_search(rng, m, vocab, base, simple=False, allow_last=False, allow_filter=True, allow_dstar=True, keep=()):
+    """A search derived from a valid Sid string. Returns (search, features). Positions in `keep` stay literal."""
     tn = m.natural_type(base)
     t = m.by_name[tn]
     segs = base.split("/")
@@ -228,6 +250,8 @@ def gen_search(rng, m, vocab, base, simple=False, allow_last=False, allow_filter
     p_star = rng.choice([0.2, 0.4, 0.7])
     for i in range(n):
         r = rng.random()
+        if i in keep:
+            continue
         if r < p_star:
             out[i] = "*"
             feats.add("star")
